@@ -274,6 +274,9 @@ class Gen:
                 else:
                     data.append([out, {"const": sval(self.word())}])
                     scope.append((out, "str"))
+            if r.random() < p.get("p_side", 0.0):
+                self.feat("side_render")
+                data.append(["sd0", {"side": True}])
             if r.random() < p["p_selfid"]:
                 data.append(["cid", {"selfid": True}])
                 scope.append(("cid", "id"))
@@ -528,6 +531,26 @@ def set_mode(isolated):
     settings.COMPONENTS = comps
 
 
+_SIDE = {}
+
+
+def side_render():
+    """a complete, independent render of other components from inside user code; its result is dropped"""
+    from django_components import Component, registry
+    if not _SIDE:
+        class SideInner(Component):
+            template = "<i>in</i>x"
+
+        class SideOuter(Component):
+            template = '<div>side</div>{% component "verif_side_inner" %}{% endcomponent %}<b>t</b>'
+        _SIDE["outer"] = SideOuter
+        _SIDE["inner"] = SideInner
+    from django_components import registry as reg
+    if "verif_side_inner" not in reg.all():
+        reg.register("verif_side_inner", _SIDE["inner"])
+    return _SIDE["outer"].render()
+
+
 class Built:
     """the real Component classes of a program, registered under their names"""
 
@@ -566,6 +589,9 @@ class Built:
                 elif "inject" in s:
                     rec.tick(["inject", self.id, s["inject"]])
                     out[name] = self.inject(s["inject"], s.get("dflt"))
+                elif "side" in s:
+                    side_render()
+                    out[name] = ""
                 else:
                     out[name] = IdBox(self.id)
             return out
